@@ -167,7 +167,7 @@ func FuzzPattern(f *testing.F) {
 }
 
 func FuzzRID(f *testing.F) {
-	for _, s := range []string{"subscribe.t.a", "call.t.a.b", "get.t.a?q=1", "call.t.a.b?c", "subscribe.t..a", "subscribe.t.*", "new.t.>", "auth.a.b c", "unsubscribe.t.\n"} {
+	for _, s := range []string{"subscribe.t.a", "call.t.a.b", "get.t.a?q=1", "call.t.a.b?c", "subscribe.t..a", "subscribe.t.*", "new.t.>", "auth.a.b c", "unsubscribe.t.\n", "call.0.|", "call.a|b.c"} {
 		f.Add(s)
 	}
 	f.Fuzz(func(t *testing.T, method string) {
